@@ -36,7 +36,7 @@ pub fn oracle(c: &PuCtx, rec: &mut Rec) {
         rec.viol("C14_accepted_on_empty_or_larger_pool", format!("{:?} on pool with {n} assets, funded={funded}", c.op));
     }
     // locking for someone else / into someone else's position
-    let foreign_recv = lock.is_some() && recv.map_or(false, |r| r != *u);
+    let foreign_recv = lock.is_some() && recv.map_or(false, |r| r != *u && r != 99);
     let foreign_pos = lock.is_some() && lock_id.as_ref().map_or(false, |i| c.pre.positions.iter().any(|p| &p.identifier == i && p.receiver != c.w.users[*u]));
     if (foreign_recv || foreign_pos) && ok {
         rec.viol("C14_locked_for_someone_else", format!("{:?}", c.op));
@@ -115,7 +115,10 @@ pub fn alphabet(w: &World, pre: &PuObs) -> Vec<PuOp> {
             let even = odd + 1;
             ops.push(mk(A, &c.denom, odd, None, None, None, None, Some(5000)));
             ops.push(mk(A, &c.denom, even, None, None, Some(B), None, Some(5000)));
+            // a receiver string that is not a valid address (the contract falls back to the sender), unlocked and locked
+            ops.push(mk(A, &c.denom, even, None, None, Some(99), None, Some(5000)));
             if i == 0 {
+                ops.push(mk(A, &c.denom, odd, Some(DAY), None, Some(99), None, Some(5000)));
                 ops.push(mk(A, &c.denom, odd, Some(DAY), None, None, None, Some(5000)));
                 ops.push(mk(A, &c.denom, even, Some(DAY), Some("mine".into()), None, None, Some(5000)));
                 ops.push(mk(A, &c.denom, odd, Some(DAY), None, Some(B), None, Some(5000))); // lock for someone else: refused
